@@ -109,7 +109,10 @@ def absent_like(chosen, present):
         if not nums:
             return None
         v = sorted(nums)[0]
-        c = v + 0.5 if isinstance(v, int) else v + 0.125
+        if isinstance(v, int) and abs(v) > 2 ** 52:
+            c = max(nums) + 7        # (identifiers too large for a float: an absent value is another integer)
+        else:
+            c = v + 0.5 if isinstance(v, int) else v + 0.125
     return None if c in present else c
 
 
@@ -151,7 +154,7 @@ def _str_labels(ints, uni=False, near=False):
     return out
 
 
-def gen_grouping(rng, n, kinds=('unique', 'groups', 'allsame'), allow_allsame=True, typ=None, fewdups=0.25):
+def gen_grouping(rng, n, kinds=('unique', 'groups', 'allsame'), allow_allsame=True, typ=None, fewdups=0.25, huge_ok=True):
     kind = rng.pick([k for k in kinds if allow_allsame or k != 'allsame'])
     typ = typ or rng.pick(['int', 'str', 'int', 'str', 'float'])
     cont = rng.pick(['list', 'array'])
@@ -171,6 +174,10 @@ def gen_grouping(rng, n, kinds=('unique', 'groups', 'allsame'), allow_allsame=Tr
         labs = [x * 2 + 3 for x in labs]
     if typ == 'str':
         labs = _str_labels(labs, uni=rng.chance(0.2), near=rng.pick([False, False, False, False, 'blank', 'case']))
+    elif typ == 'int' and rng.chance(0.08) and huge_ok:
+        # identifiers beyond 2**53 (time-stamp coded trial ids): neighbours are different labels, also where a float would
+        # not tell them apart
+        labs = [9007199254740993 + x for x in labs]
     elif typ == 'int' and rng.chance(0.3):
         # labels that include zero and negative numbers (falsy / sign-sensitive handling)
         ds = sorted(set(labs))
